@@ -75,6 +75,20 @@ DESC = {
            "a query before a unit with a newline in its payload, a write or flush error on that early answer, the rest of the message in the same read and another query before the terminator"),
  "C13-d": ("C13", "execute awaits the generated execute_command future through Box::pin when it is larger than 4 KiB (alloc gated on panic=unwind)",
            "an interface with a handler whose future exceeds 4 KiB; allocator-less panic=abort binaries still link"),
+ "C02-e": ("C02", "proc-macro shares one tree node between all spellings of a command part, so children of differently-prefixed commands are merged",
+           "a tree with two optional subsystems that have a same-named child ([SENSe]:FREQuency:RANGe, [SOURce]:FREQuency:CW) and the undeclared combination SENS:FREQ:CW (accepted in absolute and relative form alike; header matching itself is C01's subject, the C06 check sees it as an undefined header that is not reported)"),
+ "C04-e": ("C04", "process keeps answers parked in its response buffer while a message is continued after a newline inside a payload, and clears the buffer on input overflow",
+           "a query answered early in a compound message whose later unit has a payload newline and whose tail overflows the N byte input buffer: the answer is never sent"),
+ "C06-e": ("C06", "shared helper for #H/#B/#Q returns Incomplete when fewer than two bytes follow the prefix",
+           "a faulty message ending in a bare #H, #B or #Q directly before the terminator is judged 'continued' and not reported"),
+ "C07-e": ("C07", "compaction rewinds the buffer instead of shifting when the unprocessed tail is only white space",
+           "a message with leading white space whose total length is N+1..N+w+1, and a read boundary exactly between the white space and the rest, in a read that also held the previous terminator"),
+ "C08-e": ("C08", "an 'exhausted' flag (incomplete unit ends at the last byte of the buffer) triggers the overflow discard before the shift",
+           "a read that fills the buffer exactly, byte N-1 is a newline inside a payload, and something ahead of that unit was consumed in the same read"),
+ "C09-e": ("C09", "error descriptions looked up by binary search over a table that is not sorted at -220/-210",
+           "a handler returns Error::ParameterError: SYST:ERR? answers -220,\"Execution error\" instead of \"Parameter error\""),
+ "C10-e": ("C10", "process sends its response buffer only when a response completed (flush seen) or the buffer is full",
+           "a multi-piece answer that overflows N in a middle piece leaves stale bytes that are sent in front of a later answer (N=16, *IDN? then a short query)"),
  "C13-b": ("C13", "String::from_utf8_lossy in the quoted-string recogniser",
            "a closed quoted string containing invalid UTF-8"),
 }
